@@ -135,6 +135,21 @@ def gen_weights_case(rng):
 
 
 
+def gen_labelrule_case(rng):
+    """files mixing integer-looking and float-looking first tokens in different line positions (first line integer-looking and a
+    later one float-looking, the converse, all of one kind), 7 or 8 tokens per line, repeated first tokens, non-unit last column"""
+    nt = rng.choice([7, 8]); n = rng.choice([1, 2, 3, 4, 6]); kind = rng.choice(["all-int", "all-float", "int-first-float-later", "float-first-int-later", "float-last-only", "mixed"])
+    if kind == "all-int": ds = [0] * n
+    elif kind == "all-float": ds = [1] * n
+    elif kind == "int-first-float-later": ds = [0] + [rng.choice([0, 1]) for _ in range(n - 1)]; ds[-1] = 1 if n > 1 else 0
+    elif kind == "float-first-int-later": ds = [1] + [0] * (n - 1)
+    elif kind == "float-last-only": ds = [0] * (n - 1) + [1]
+    else: ds = [rng.choice([0, 1]) for _ in range(n)]
+    vs = [rng.randint(0, max(1, n // 2)) for _ in range(n)]
+    ws = [rng.choice([-3, -2, 2, 3, 5, 7, 9]) for _ in range(n)]
+    body = " ".join(map(str, [nt, n] + ds + vs + ws))
+    return "c09 19 " + body, "c09 12 " + body, "labelrule:%s:%dtok" % (kind, nt)
+
 def gen_file_case(rng):
     """file semantics of Sensors::load: labelled / unlabelled x number of numeric columns 3,4,5,6,7, non-unit weights"""
     lab = rng.random() < 0.5; ncol = rng.choice([3, 4, 5, 6, 7, 7, 7]); n = rng.choice([1, 2, 3, 5, 8])
@@ -618,6 +633,17 @@ def main(replay=None):
         if False:
             ck.violation(sig, "%s on case `%s`; the model is the one the theorems of Properties_C09.v are proved about" % (msg, c),
                          dict(kind="correspondence", cases=[c], kinds=[k], model=[m], impl=[i]))
+    # the labelled / unlabelled rule of Sensors::load on files mixing integer-looking and float-looking first tokens
+    if not replay or rp.get("labelrule"):
+        lc = [tuple(x) for x in rp["labelrule"]] if replay else [gen_labelrule_case(ck.rng) for _ in range(400 if quick else 4000)]
+        lmo = core.run_model([b for _, b, _ in lc]); rcl, lio, _e = core.run_harness(hb, [a for a, _, _ in lc], ck.workdir, tag="labelrule")
+        for (a, b, k), m, i in zip(lc, lmo, lio):
+            dist[k] = dist.get(k, 0) + 1
+            z, _f = core.fparse(i); mz = [int(x) for x in m.split()]
+            if z is None or (mz[0] == 0 and mz != z) or (mz[0] != 0 and z[0] == 0):
+                mism += 1
+                ck.violation("Sensors::load labelled/unlabelled rule: result differs", "Sensors::load of a file of kind %s gives (status, labelled, sensors, weight matrix) %s, the model (labelled iff no line starts with a float-looking token) %s; case `%s`" % (k, i[:150], m[:150], a),
+                             dict(kind="labelrule", labelrule=[[a, b, k]]))
     # file semantics of Sensors::load: which column is what, labelled and unlabelled, non-unit weights
     if not replay or rp.get("file"):
         fc = [tuple(x) for x in rp["file"]] if replay else [gen_file_case(ck.rng) for _ in range(400 if quick else 4000)]
